@@ -15,7 +15,11 @@ Inductive case :=
 | CLook (pats : list (bytes * nat)) (builderr : bool) (ls : list (bytes * obs))
 (* the same records built in two orders, the same paths looked up in both routers *)
 | COrder (pats pats' : list (bytes * nat)) (ls : list (bytes * (obs * obs)))
-(* denco.Mux: handlers (method, path, id), requests (method, URL.Path) -> handler chosen and params *)
+(* denco.Mux: handlers (method, path, id), requests (method, URL.Path) -> handler chosen and params.
+   A request may have been spelled on the wire as a request target with percent-escapes of the
+   client's own (URL.RawPath set); the case carries the decoded URL.Path, the only thing the handler
+   may route on. Likewise the tab, look and order cases may come from a router whose SizeHint option
+   was set by the caller: it is a capacity hint and not a parameter of the model. *)
 | CMux (hs : list (bytes * (bytes * nat))) (ls : list (bytes * (bytes * obs)))
 (* a constant of the Go source the model mirrors *)
 | CConst (model go : nat).
